@@ -121,16 +121,41 @@ Theorem original_redefinition_forward_reference_refuted :
   spec_prec pre 1 = [] /\ prec_of (class_changed pre 0 [1]) 1 = [].
 Proof. vm_compute. repeat split. Qed.
 
-(* (3) the dispatch cache is keyed by the class name and survives a redefinition: b (=1) under a (=0) is
-   redefined under z (=3); a new instance of b still gets a's method, although typep denies it is an a *)
+(* (3) REPAIRED (repo_fixes/C12-4, finding C12-dispatch-cache-survives-redefinition).  b (=1) under a (=0) is
+   redefined under z (=3) after a call cached "b -> a's method".  The unchanged code kept the entry: a new
+   instance of b still got a's method although typep denies it is an a.  Now defclass drops the caches: the
+   history is inside the guard and the new instance gets z's method. *)
 Definition w_cache_prefix : list hstep :=
   [dc 0 [] [] [0] []; dc 3 [] [] [0; 1] []; dc 1 [0] [] [0; 1; 2] []; other (ODefMethod 0); other (ODefMethod 3);
    other (OMake 1 []); other (ODispatch 0)].
 Definition w_cache : list hstep := w_cache_prefix ++ [dc 1 [3] [] [0; 1; 3] []; other (OMake 1 []); other (ODispatch 1); other (OTypep 1 0)].
-Theorem dispatch_cache_stale_refuted :
-  guard_ops w0 w_cache_prefix = true /\ guard_ops w0 w_cache = false /\
+Theorem dispatch_cache_cleared_example :
+  guard_ops w0 w_cache = true /\
   prec_of (run w0 w_cache) 1 = [1; 3; SO; TT] /\ spec_prec (run w0 w_cache) 1 = [1; 3; SO; TT] /\
-  skipn 9 (run_obs w0 w_cache) = [ONames [0]; OB false].
+  skipn 6 (run_obs w0 w_cache_prefix) = [ONames [0]] /\
+  skipn 9 (run_obs w0 w_cache) = [ONames [3]; OB false].
+Proof. vm_compute. repeat split. Qed.
+(* the unchanged code, for the record: the same defclass without ClearCaches *)
+Theorem original_dispatch_cache_stale_refuted :
+  let w := run w0 w_cache_prefix in
+  let w1 := fst (step (defclass_merged w 1 [3] [] [0; 1; 3] []) (OMake 1 []) [] []) in
+  let w2 := fst (step (defclass w 1 [3] [] [0; 1; 3] []) (OMake 1 []) [] []) in
+  snd (step w1 (ODispatch 1) [] []) = ONames [0] /\ snd (step w1 (OTypep 1 0) [] []) = OB false /\
+  snd (step w2 (ODispatch 1) [] []) = ONames [3].
+Proof. vm_compute. repeat split. Qed.
+(* (3') STILL OUTSIDE THE GUARD: the cache is keyed by the class NAME.  An instance made before the redefinition
+   keeps the old class object; a call with it (not guarded: its class object is not the registered one) caches
+   "b -> a's method" again, and the next call with a new instance of b uses that entry. *)
+Definition w_key_prefix : list hstep :=
+  [dc 0 [] [] [0] []; dc 3 [] [] [0; 1] []; dc 1 [0] [] [0; 1; 2] []; other (ODefMethod 0); other (ODefMethod 3);
+   other (OMake 1 []); dc 1 [3] [] [0; 1; 3] []; other (OMake 1 [])].
+Definition w_key : list hstep := w_key_prefix ++ [other (ODispatch 0); other (ODispatch 1); other (OTypep 1 0)].
+Theorem dispatch_cache_class_name_refuted :
+  guard_ops w0 w_key_prefix = true /\ guard_ops w0 w_key = false /\
+  guard_ops w0 (w_key_prefix ++ [other (ODispatch 1)]) = true /\
+  last (run_obs w0 (w_key_prefix ++ [other (ODispatch 1)])) OErr = ONames [3] /\
+  prec_of (run w0 w_key) 1 = [1; 3; SO; TT] /\ spec_prec (run w0 w_key) 1 = [1; 3; SO; TT] /\
+  skipn 8 (run_obs w0 w_key) = [ONames [0]; ONames [0]; OB false].
 Proof. vm_compute. repeat split. Qed.
 
 (* (4) an initarg declared for two slots fills one of them only (here: x of class a and y of its subclass b
